@@ -12,11 +12,18 @@ COQCHK_NOTE = ('not run for C17: the 27 table theorems are vm_compute enumeratio
                'without the bytecode VM and does not finish within the time limit (it was started once and stopped after 25 min)')
 LETTERS = 'ACGTRYSWKMBDHVN'
 RULE = ('finite theorem over all 27 tables x 3375 IUPAC codons proved in Coq on tables regenerated from gc.json/gc.prt; '
-        'correspondence cases: (table id, codon) -> what gcode(id) answers (tt entry, membership in starts/stops/astarts/astops), '
-        'all 64 unambiguous codons x 27 tables + 1.5k (quick) / 12k (thorough) random codons through the model; thorough additionally runs '
-        'gcode() against the independent NCBI oracle on ALL 27 x 3375 (table, codon) pairs; '
-        'non-trivial = distinct (id, codon) with an ambiguous letter or a start/stop flag')
+        'correspondence cases: (a) (table id, codon) -> what gcode(id) answers (tt entry, membership in starts/stops/astarts/astops), '
+        'all 64 unambiguous codons x 27 tables + the 27 inverse tables (+ types of the collections) + 1.5k (quick) / 12k (thorough) random codons; '
+        '(b) sequences of 1-13 gcode() calls on a cleared cache (call forms gcode(x) / gcode(tt=x) / gcode(), int / str / float / bool / None / list '
+        'arguments, known and unknown ids): exception class or table id + which call created the returned object, 250 / 2000 sequences; '
+        '(c) the real script convert.py (runpy, scratch cwd, patched CODES) on synthetic gc.prt-like texts (0-3 tables, missing / repeated / '
+        'malformed name, id, ncbieaa, sncbieaa lines, short lines, several or no stops / starts, CRLF / CR) and alphabets (sub-alphabets of '
+        'IUPAC, extra spellings, letters without expansion, value letters that are no key, a missing base) against the Gallina model, 90 / 600 '
+        'small-alphabet + 4 / 24 whole-IUPAC cases, plus corpus/C17; thorough additionally runs gcode() against the independent NCBI oracle on '
+        'ALL 27 x 3375 (table, codon) pairs; non-trivial = distinct (id, codon) with an ambiguous letter or a start/stop flag, a call sequence '
+        'with >= 2 calls, a conversion (by result shape)')
 TRUSTED = ['json.load, set(), functools.lru_cache, importlib.resources (loader of gcode(); compared on every case)',
+           'runpy.run_path of sugar/data/data_gcode/convert.py in a scratch directory with sugar.data.CODES patched (generator tie)',
            'independent gc.prt parser in tools/gens/gcode.py',
            'history clause (no library operation modifies the tables): static AST walk of sugar/ + snapshot before/after a '
            'battery of library calls -- testing, not proof']
